@@ -54,6 +54,7 @@ struct JobStats {
     rule: String,
     required: Vec<&'static str>,
     max_depth: u64,
+    wall_ms: u64,
 }
 
 struct Found {
@@ -89,7 +90,22 @@ fn account(job: &Job, st: &mut JobStats, case: &Case, o: &Outcome) {
     }
 }
 
+/// Work budget of one minimisation, in operations executed (a bulk fill of n entries counts n):
+/// keeps the shrinking of cases that build huge structures within minutes. Deterministic (no clock);
+/// when it is used up every further candidate counts as "does not fail", which ends the search.
+static SHRINK_WORK: std::sync::atomic::AtomicI64 = std::sync::atomic::AtomicI64::new(i64::MAX);
+const SHRINK_WORK_BUDGET: i64 = 15_000_000;
+
+fn case_cost(case: &Case) -> i64 {
+    let names = names_of(&case.family).unwrap_or(&[]);
+    case.ops.iter().map(|o| 1 + if names.get(o.kind as usize) == Some(&"bulk") { o.args[0].rem_euclid(4_000_001) } else { 0 }).sum()
+}
+
 fn fails_same(case: &Case, pn: u32, journal: &mut Journal) -> Option<Failure> {
+    use std::sync::atomic::Ordering;
+    if SHRINK_WORK.fetch_sub(case_cost(case), Ordering::Relaxed) <= 0 {
+        return None;
+    }
     journal.write(case);
     let o = eval_case(case, EvalOpts::default());
     match o.failure {
@@ -100,6 +116,7 @@ fn fails_same(case: &Case, pn: u32, journal: &mut Journal) -> Option<Failure> {
 
 /// greedy one-op-at-a-time deletion to a fixpoint
 fn ddmin_ops(mut case: Case, pn: u32, journal: &mut Journal, budget: &mut u32) -> (Case, Failure) {
+    SHRINK_WORK.store(SHRINK_WORK_BUDGET.max(2 * case_cost(&case) + 1), std::sync::atomic::Ordering::Relaxed);
     let mut failure = fails_same(&case, pn, journal).expect("ddmin starts from a failing case");
     // cut everything after the failing op first
     if failure.op_index + 1 < case.ops.len() {
@@ -187,6 +204,7 @@ fn ddmin_ops(mut case: Case, pn: u32, journal: &mut Journal, budget: &mut u32) -
 }
 
 fn shrink_tree<T: ValueTree<Value = Case>>(tree: &mut T, pn: u32, journal: &mut Journal, first: Failure) -> (Case, Failure, u32) {
+    SHRINK_WORK.store(SHRINK_WORK_BUDGET, std::sync::atomic::Ordering::Relaxed);
     let mut best = tree.current();
     let mut best_f = first;
     let mut steps = 0u32;
@@ -224,6 +242,7 @@ fn run_shard(pn: u32, tier: Tier, seed: u64, shard: usize, nshards: usize, out: 
     let mut enum_idx = 0usize;
     for job in all.iter() {
         let mut st = JobStats { name: job.name.clone(), rule: job.rule.text.to_string(), ..Default::default() };
+        let tjob = Instant::now();
         if found.is_some() {
             break;
         }
@@ -327,6 +346,7 @@ fn run_shard(pn: u32, tier: Tier, seed: u64, shard: usize, nshards: usize, out: 
             }
         }
         st.required = job.required.clone();
+        st.wall_ms = tjob.elapsed().as_millis() as u64;
         stats.push(st);
     }
     // journal no longer needed: normal completion
@@ -365,6 +385,7 @@ fn run_shard(pn: u32, tier: Tier, seed: u64, shard: usize, nshards: usize, out: 
         o.put("states", J::UInt(st.states));
         o.put("transitions", J::UInt(st.transitions));
         o.put("max_depth", J::UInt(st.max_depth));
+        o.put("wall_ms", J::UInt(st.wall_ms));
         o.put("exhaustive", J::Bool(st.exhaustive));
         o.put("required", J::Arr(st.required.iter().map(|r| J::s(*r)).collect()));
         let mut samples = Vec::new();
@@ -395,9 +416,7 @@ fn run_shard(pn: u32, tier: Tier, seed: u64, shard: usize, nshards: usize, out: 
             text.push_str(&format!("# {}\n", line));
         }
         text.push_str("# resolved history:\n");
-        for l in &tr.trace {
-            text.push_str(&format!("#   {}\n", l));
-        }
+        push_trace(&mut text, &tr.trace);
         let fpath = out.join(format!("shard-{}.fail.case", shard));
         let _ = std::fs::write(&fpath, text);
         let mut o = J::obj();
@@ -415,6 +434,24 @@ fn run_shard(pn: u32, tier: Tier, seed: u64, shard: usize, nshards: usize, out: 
     let rpath = out.join(format!("shard-{}.json", shard));
     let _ = std::fs::write(&rpath, root.to_string());
     code
+}
+
+/// the resolved history as comment lines: all of it when short, otherwise its head and tail
+fn push_trace(text: &mut String, trace: &[String]) {
+    let cut = |l: &str| if l.len() > 400 { format!("{}…", l.chars().take(400).collect::<String>()) } else { l.to_string() };
+    if trace.len() <= 400 {
+        for l in trace {
+            text.push_str(&format!("#   {}\n", cut(l)));
+        }
+    } else {
+        for l in &trace[..250] {
+            text.push_str(&format!("#   {}\n", cut(l)));
+        }
+        text.push_str(&format!("#   … {} lines left out (./check <id> --replay <file> prints all of them) …\n", trace.len() - 350));
+        for l in &trace[trace.len() - 100..] {
+            text.push_str(&format!("#   {}\n", cut(l)));
+        }
+    }
 }
 
 fn replay(path: &str, trace: bool, progress: bool, prop_override: Option<String>) -> i32 {
@@ -565,9 +602,7 @@ fn main() {
                             t.push_str(&format!("# {}\n", line));
                         }
                         t.push_str("# resolved history:\n");
-                        for l in &tr.trace {
-                            t.push_str(&format!("#   {}\n", l));
-                        }
+                        push_trace(&mut t, &tr.trace);
                         print!("{}", t);
                         println!("# site={}", f2.site);
                         1
